@@ -58,7 +58,7 @@ PROPS = {
                 nontrivial="length > 0"),
     "C08": dict(streams=["int", "intblk"], exhaustive="u8 and u16 through all five entry points (quick); u32 through u32/u64/usize (thorough), block digests",
                 nontrivial="value > 1"),
-    "C09": dict(streams=["path"], exhaustive="every segment count 1..257 rooted/unrooted; each of the 4 positions over its alphabet and over all ASCII bytes",
+    "C09": dict(streams=["path"], exhaustive="every segment count 1..257 rooted/unrooted; each of the 4 positions over its alphabet and over all ASCII bytes; every case through Path::new and through Path::from",
                 nontrivial="non-empty string"),
     "C06": dict(streams=["aml"], exhaustive="",
                 nontrivial="any term tree"),
@@ -66,13 +66,14 @@ PROPS = {
                 nontrivial="any template or descriptor"),
     "C13": dict(streams=["sdt"], exhaustive="all op sequences of length <= 2 (3 in the thorough tier) over a 34-op alphabet on a 40-byte table; every declared length 0..80",
                 nontrivial="at least one operation"),
-    "C14": dict(streams=["ent", "aml", "sdt", "cks", "tbl", "fix"], exhaustive="", nontrivial="any object"),
+    "C14": dict(streams=["ent", "aml", "sdt", "cks", "tbl", "fix"], exhaustive="downstream aml_as_bytes! types of every size 1..16; Default values of every public entry struct that derives Default",
+                nontrivial="any object"),
     "C15": dict(streams=["amlalt", "misc"], exhaustive="body sizes 0..4200 (every size near 63/64 and 4095/4096; every 7th elsewhere in the quick tier, all in the thorough tier)",
                 nontrivial="non-empty body"),
     "C18": dict(streams=["tblbig", "amlbig", "path", "pkglen", "fix", "ent"], profiles=["release", "dev"],
                 both_profiles=["tblbig", "amlbig", "path", "pkglen", "fix"], exhaustive="",
                 nontrivial="any case"),
-    "C16": dict(streams=["eisa", "eisablk", "uuid"], exhaustive="each EISA/UUID position over its alphabet; all 26^3*16^4 ids in the thorough tier (block digests)",
+    "C16": dict(streams=["eisa", "eisablk", "uuid"], exhaustive="each EISA/UUID position over its alphabet and over every other ASCII byte; a UUID separator moved to each of the 32 digit positions, all orders of the group lengths; all 26^3*16^4 ids in the thorough tier (block digests)",
                 nontrivial="non-empty string"),
     "C17": dict(streams=["cks"], exhaustive="all 256x256 (state, byte) pairs for add/sub/value",
                 nontrivial="at least one operation"),
